@@ -12,7 +12,7 @@ EXTRA_R4 = ("Prefer mechanisms a reviewer would be unlikely to think of first AN
          "dates and calendars (month/year ends, leap days, datetime vs date), text encodings and line endings (BOM, CRLF, tabs, trailing "
          "blanks), option defaults, early returns / `continue` / `break` on a rare branch, exception types caught too broadly or too narrowly, "
          "state kept on an object that outlives one use, or output formats/verbosity levels that are rarely used.")
-EXTRA = ("Prefer mechanisms that differ in KIND from everything listed below and that live on paths people rarely exercise: rarely used command-line "
+EXTRA_R6 = ("Prefer mechanisms that differ in KIND from everything listed below and that live on paths people rarely exercise: rarely used command-line "
          "options and their combinations (--settings, --output, --format with each verbosity level, --category, --no-embedded-html, --limit, "
          "TALLY_CONFIG), budgets spanning several years or several settings files, supplemental data sources, the interplay of views and rules, "
          "files produced on Windows or by spreadsheets (CRLF, UTF-8 BOM, trailing delimiters, quoted numbers, tabs), very small inputs (one row, "
@@ -20,6 +20,17 @@ EXTRA = ("Prefer mechanisms that differ in KIND from everything listed below and
          "out by validation), Python language traps (mutable defaults, late-binding closures, `is` vs `==`, truthiness of 0 / '' / [], chained "
          "comparison, integer division, sort stability, dict ordering, generator exhaustion, shadowed names, except clauses that swallow too "
          "much), or a helper shared by two features that is changed for the sake of one.")
+EXTRA = ("Prefer mechanisms that differ in KIND from everything listed below. Good hunting grounds: performance work (batching, early exits, "
+         "pre-computation outside a loop, replacing a per-item computation by a per-group one), API tidying (reordered or renamed keyword "
+         "arguments, changed default values, a helper extracted from two call sites that differed in one detail), sorting and ordering changes "
+         "(sorted() with a new key, set vs list, dict insertion order), rounding and number formatting (round(), '%.2f', int()), output text "
+         "that other code or the user parses, state that survives between two commands through files on disk (caches, backups, temporary "
+         "files, markers), handling of paths (relative vs absolute, trailing separators, symlinks, spaces and non-ASCII in names), and "
+         "interplay with features added recently (run `git -C <your worktree> log --oneline | head -40` to see what was fixed lately: a "
+         "plausible bug is a partial revert or a new special case that forgets one of those fixes' conditions). If the property allows, "
+         "put at least one of your two variants in a file other than expr_parser.py and merchant_engine.py.")
+if len(sys.argv) > 2 and sys.argv[2] == 'r6':
+    EXTRA = EXTRA_R6
 if len(sys.argv) > 2 and sys.argv[2] == 'r4':
     EXTRA = EXTRA_R4
 for l in open('/verif/properties.jsonl'):
